@@ -3783,3 +3783,68 @@ func runFuseAggMixesInSeenOrder(c *Ctx, rule string) {
 		c.Fail(rule, construct, fn.Pos(), "the remembered shapes are taken in map iteration order instead of being laid out by their first-seen ordinal: the field order of the type fuse() reports varies from run to run and differs from the fuse operator's")
 	}
 }
+
+// ---- C11-U1: loops that follow union tags stop at a null.
+//
+// TypeUnion.Untag(nil) returns the union type itself (a null has no tag).  A loop of the form
+// `for { t = TypeUnder(t); u, ok := t.(*TypeUnion); if !ok { return }; t, b = u.Untag(b) }`
+// therefore never ends for a null value of union type: the JSON writer (and everything else
+// that calls Value.Under) spins at 100% CPU and ignores cancellation.
+func runUntagLoopsStopAtNull(c *Ctx, rule string) {
+	p := c.P
+	c.Rule(rule, "every call of TypeUnion.Untag whose result is fed back into it around a loop is on the non-nil edge of a test of the bytes it is given: a null value of union type ends the loop instead of being untagged into itself forever")
+	n := 0
+	for _, s := range callSitesWhere(p, func(_ *ssa.CallCommon, name string) bool { return name == "(*super.TypeUnion).Untag" }) {
+		in := s.ci.(ssa.Instruction)
+		if !inCycle(s.fn, in) {
+			continue
+		}
+		args := s.ci.Common().Args
+		bytesArg := args[len(args)-1]
+		// only loops that feed Untag's result back into Untag (an element loop untags each
+		// element once and moves on)
+		self, _ := s.ci.(ssa.Value)
+		if self == nil || !dependsOn(bytesArg, func(v ssa.Value) bool { return v == self }) {
+			continue
+		}
+		n++
+		ok := false
+		for _, b := range s.fn.Blocks {
+			for _, ii := range b.Instrs {
+				cmp, isCmp := ii.(*ssa.BinOp)
+				if !isCmp || !(isNilConst(cmp.X) || isNilConst(cmp.Y)) {
+					continue
+				}
+				other := cmp.X
+				if isNilConst(other) {
+					other = cmp.Y
+				}
+				if other != bytesArg && !sameVar(other, bytesArg) {
+					continue
+				}
+				switch cmp.Op {
+				case token.EQL:
+					// the call must not be reachable through the == nil edge alone
+					for _, r := range *cmp.Referrers() {
+						if iff, isIf := r.(*ssa.If); isIf && !reachesBlock(iff.Block().Succs[0], in.Block(), iff.Block()) {
+							ok = true
+						}
+					}
+					// `!ok || bytes == nil` short-circuits: the == nil test sits in its own block
+					ok = ok || falseEdgeDominatesOrSelf(cmp, in.Block())
+				case token.NEQ:
+					ok = ok || trueEdgeDominatesOrSelf(cmp, in.Block())
+				}
+			}
+		}
+		construct := constructName(s.fn) + " untags in a loop"
+		if ok {
+			c.OK(rule, construct, s.ci.Pos(), "only for non-nil bytes")
+		} else {
+			c.Fail(rule, construct, s.ci.Pos(), "Untag(nil) returns the union type itself, and this loop goes round again: Value.Under on `null((int64,string))` never returns - `super query -f json` on {n:null((int64,string))} spins at 100% CPU and has to be killed")
+		}
+	}
+	if n == 0 {
+		c.OK(rule, "Untag in loops", token.NoPos, "no call of Untag lies on a cycle")
+	}
+}
